@@ -699,7 +699,8 @@ def run(chk: lib.Check):
     for i in range(2 if quick else 8):
         xplan.append((wt, [("deep", f"{places_deep[i % 4]}:{rng.randrange(258, 300) if i == 0 else rng.randrange(300, 900)}")]))
     att, txt = [p_ for p_ in places_long if p_ != "text"], "text"
-    for i, pl in enumerate(([att[0], txt] if quick else places_long * 2)):
+    plain = [p_ for p_ in att if p_ != "desc"]
+    for i, pl in enumerate(([plain[0], "desc", txt] if quick else places_long * 2)):
         xplan.append((big[0] if pl == "text" else wt, [("long", f"{pl}:{10_000_000 + rng.randrange(1, 900_000)}:{alph[rng.randrange(len(alph))]}")]))
     if not quick:
         xplan.append((wt, [("long", f"pv:{rng.randrange(30_000_000, 50_000_000)}:x")]))
@@ -743,6 +744,13 @@ def run(chk: lib.Check):
         chk.note_case((spec["path"].name, seed), nontrivial=bool(out.ops))
         if out.problems:
             key = None
+            # the recorded defect of the HTML repair (a text run above 10,000,000 bytes comes back empty from lxml's default HTML
+            # parser): only when nothing else is wrong with the history and the value was dropped as a whole
+            if all(p_.startswith("long value (desc)") and " 0 read back" in p_ for p_ in out.problems):
+                chk.violation("html-over-10MB-dropped", f"{spec['path'].name} seed {seed}: {short(out.problems[0])}",
+                              {"model": spec["path"].name, "seed": seed, "problems": out.problems,
+                               "ops": [list(e) if isinstance(e, tuple) else e for e in out.ops]})
+                continue
             # (a) is it explained by the two recorded writer defects?  neutralise the offending kind of string and
             #     re-run; a history stops at its first failing save, so later rounds may add the other kind
             neutral: set[str] = set()
